@@ -17,6 +17,18 @@
 //	                            carries len(data) and `xz --format=lzma -d` accepts the stream;
 //	                            for ZLIB the 256-byte header is as documented
 //	p_env_xz                    ok when an xz program is on PATH (which encoder configuration ran)
+//	p_seq mode {codec data}...  a HISTORY of calls in one process, results retained and not copied:
+//	                            mode 0 = all Encodes, then all Decodes; mode 1 = Encode/Decode
+//	                            interleaved.  Every retained Encode / Decode result must still be
+//	                            what it was right after its own call, must decode to its own input,
+//	                            carry its own size; arguments are never modified and results do
+//	                            not alias them.
+//
+// C ops over histories (the model is pure: result i is a function of argument i only):
+//
+//	lzmaseq {x raw0 raw1}...    e_i := LZMA.Encode(x_i) for all i, all e_i observed after the last call
+//	zlibseq {x c}...            the same for ZLIB.Encode
+//	sysseq {x raw}...           the same for SystemLZMA.Encode
 package main
 
 import (
@@ -262,6 +274,167 @@ func pCodec(args []string) string {
 		}
 	}
 	return "ok"
+}
+
+// ---- histories of calls ----
+
+func clone(b []byte) []byte { return append([]byte{}, b...) }
+
+func scramble(b []byte) {
+	for i := range b {
+		b[i] ^= 0xA5
+	}
+}
+
+func framingOK(family string, e []byte, n int) string {
+	switch family {
+	case "lzma":
+		if len(e) < 13 {
+			return "lzma-header-short"
+		}
+		if binary.LittleEndian.Uint64(e[5:13]) != uint64(n) {
+			return "lzma-header-size header=" + H(e[:13])
+		}
+	case "zlib":
+		if len(e) < 256 {
+			return "zlib-header-short"
+		}
+		if uint64(binary.LittleEndian.Uint32(e[20:24])) != uint64(len(e)-256) {
+			return "zlib-header-size"
+		}
+	}
+	return ""
+}
+
+// p_seq mode codec1 x1 codec2 x2 ...
+func pSeq(args []string) string {
+	interleaved := args[0] == "1"
+	type item struct {
+		name, family string
+		c            compression.Compressor
+		x            []byte // private copy of the input, never handed to the code
+		e, eCopy     []byte // what Encode returned (retained as is) and a private copy taken at once
+		d, dCopy     []byte // the same for Decode
+	}
+	var items []*item
+	for i := 1; i+1 < len(args); i += 2 {
+		items = append(items, &item{name: args[i], x: UnH(args[i+1])})
+	}
+	tag := func(k int, it *item) string {
+		return " step=" + N(uint64(k)) + " codec=" + it.name + " len=" + N(uint64(len(it.x))) + " mode=" + args[0]
+	}
+	encode := func(k int, it *item) string {
+		// the selection flag is set per call: CompressorFromGUID is part of the history
+		it.c, it.family = codecByName(it.name)
+		if it.c == nil {
+			return "skip"
+		}
+		arg := clone(it.x)
+		e, err := it.c.Encode(arg)
+		if err != nil {
+			return "FAIL encode-error" + tag(k, it) + ": " + err.Error()
+		}
+		if !bytes.Equal(arg, it.x) {
+			return "FAIL encode-modified-its-argument" + tag(k, it)
+		}
+		it.e, it.eCopy = e, clone(e)
+		scramble(arg) // the caller reuses its buffer
+		if !bytes.Equal(it.e, it.eCopy) {
+			return "FAIL encode-result-aliases-argument" + tag(k, it)
+		}
+		return ""
+	}
+	decode := func(k int, it *item) string {
+		// decode the RETAINED slice, not the private copy: it is what a caller holds
+		d, err := it.c.Decode(it.e)
+		if err != nil {
+			return "FAIL decode-of-retained-encode-error" + tag(k, it) + ": " + err.Error()
+		}
+		it.d, it.dCopy = d, clone(d)
+		return ""
+	}
+	for k, it := range items {
+		if r := encode(k, it); r != "" {
+			return r
+		}
+		if interleaved {
+			if r := decode(k, it); r != "" {
+				return r
+			}
+		}
+	}
+	// every retained encoding is still what it was, and is a proper encoding of ITS input
+	for k, it := range items {
+		if !bytes.Equal(it.e, it.eCopy) {
+			return "FAIL encode-result-changed-by-later-call" + tag(k, it)
+		}
+		if why := framingOK(it.family, it.e, len(it.x)); why != "" {
+			return "FAIL " + why + tag(k, it)
+		}
+	}
+	if !interleaved {
+		for k, it := range items {
+			if r := decode(k, it); r != "" {
+				return r
+			}
+		}
+	}
+	for k, it := range items {
+		if !bytes.Equal(it.e, it.eCopy) {
+			return "FAIL decode-modified-its-argument-or-an-earlier-result" + tag(k, it)
+		}
+		if !bytes.Equal(it.d, it.dCopy) {
+			return "FAIL decode-result-changed-by-later-call" + tag(k, it)
+		}
+		if !bytes.Equal(it.d, it.x) {
+			return "FAIL decode-of-encode-differs" + tag(k, it)
+		}
+	}
+	// results do not alias the decoder's argument: the caller overwrites the encoded buffers
+	for _, it := range items {
+		scramble(it.e)
+	}
+	for k, it := range items {
+		if !bytes.Equal(it.d, it.x) {
+			return "FAIL decode-result-aliases-argument" + tag(k, it)
+		}
+	}
+	return "ok"
+}
+
+// C ops: e_i := Encode(x_i) for every i, nothing copied in between, all observed at the end
+func seqObs(c compression.Compressor, xs [][]byte) string {
+	var es [][]byte
+	for _, x := range xs {
+		e, err := c.Encode(x)
+		if err != nil {
+			return "err 3"
+		}
+		es = append(es, e)
+	}
+	parts := make([]string, len(es))
+	for i, e := range es {
+		parts[i] = H(e)
+	}
+	return "ok " + strings.Join(parts, " ")
+}
+
+func everyNth(args []string, n int) [][]byte {
+	var xs [][]byte
+	for i := 0; i+n <= len(args); i += n {
+		xs = append(xs, UnH(args[i]))
+	}
+	return xs
+}
+
+func opLzmaSeq(args []string) string { return seqObs(&compression.LZMA{}, everyNth(args, 3)) }
+func opZlibSeq(args []string) string { return seqObs(&compression.ZLIB{}, everyNth(args, 2)) }
+func opSysSeq(args []string) string {
+	if !haveXZ() {
+		return "err 3"
+	}
+	useXZ(true)
+	return seqObs(compression.CompressorFromGUID(&compression.LZMAGUID), everyNth(args, 2))
 }
 
 func pEnvXZ(args []string) string {
@@ -560,6 +733,71 @@ func gen(r *Rng, tier string, emit Emit) {
 			emit("C", "sysenc", H(x), rawXZ(x))
 		}
 	}
+
+	// 4. histories: several calls in one process, results retained (state kept between
+	// calls, shared output buffers, aliasing with arguments)
+	ns := 36
+	if thorough {
+		ns = 600
+	}
+	names := []string{"lzma", "golzmax86", "golzma", "syslzma", "syslzmax86", "zlib", "lz4"}
+	seqInput := func(rr *Rng) []byte {
+		n := rr.Pick(0, 1, 5, 40, 300, 1700, 3000)
+		if n >= 40 {
+			n += rr.Intn(n / 2)
+		}
+		if rr.Bool() {
+			return dense(rr, n)
+		}
+		return codeLike(rr, n)
+	}
+	for it := 0; it < ns; it++ {
+		rr := r.Fork(uint64(3<<32 + it))
+		k := rr.Range(2, 3)
+		args := []string{b2s(rr.Bool())}
+		same := ""
+		if it < 2*len(names) { // every codec against itself first, both modes
+			same = names[it%len(names)]
+			args[0] = b2s(it >= len(names))
+		} else if rr.Chance(1, 2) {
+			same = names[rr.Intn(len(names))]
+		}
+		for j := 0; j < k; j++ {
+			name := same
+			if name == "" {
+				name = names[rr.Intn(len(names))]
+			}
+			args = append(args, name, H(seqInput(rr)))
+		}
+		emit("P", "p_seq", args...)
+	}
+	nq := 6
+	if thorough {
+		nq = 100
+	}
+	for it := 0; it < nq; it++ {
+		rr := r.Fork(uint64(4<<32 + it))
+		k := rr.Range(2, 3)
+		var la, za, sa []string
+		for j := 0; j < k; j++ {
+			x := seqInput(rr)
+			if le, err := (&compression.LZMA{}).Encode(x); err == nil && len(le) >= 13 {
+				props, dc := le[0], binary.LittleEndian.Uint32(le[1:5])
+				la = append(la, H(x), rawLzma(x, props, dc, false), rawLzma(x, props, dc, true))
+			} else {
+				la = append(la, H(x), "err", "err")
+			}
+			za = append(za, H(x), H(rawZlib(x)))
+			if xz {
+				sa = append(sa, H(x), rawXZ(x))
+			}
+		}
+		emit("C", "lzmaseq", la...)
+		emit("C", "zlibseq", za...)
+		if xz {
+			emit("C", "sysseq", sa...)
+		}
+	}
 }
 
 func main() {
@@ -572,5 +810,9 @@ func main() {
 	Register("p_x86_roundtrip", pX86Roundtrip)
 	Register("p_codec", pCodec)
 	Register("p_env_xz", pEnvXZ)
+	Register("p_seq", pSeq)
+	Register("lzmaseq", opLzmaSeq)
+	Register("zlibseq", opZlibSeq)
+	Register("sysseq", opSysSeq)
 	Main(gen)
 }
